@@ -76,6 +76,9 @@ class FFCXBackendSymbols:
         self.quadrature_weight_tables = {}
         self.element_tables = {}
 
+        # Domains in order of first use, for naming geometry symbols
+        self._domain_numbers = {}
+
         # Reusing a single symbol for all quadrature loops, assumed not to be nested.
         self.quadrature_loop_index = L.Symbol("iq", dtype=L.DataType.INT)
 
@@ -138,10 +141,11 @@ class FFCXBackendSymbols:
 
     def J_component(self, mt):
         """Jacobian component."""
-        return L.Symbol(
-            format_mt_name(f"J{ufl.domain.extract_unique_domain(mt.expr).ufl_id()}", mt),
-            dtype=L.DataType.REAL,
-        )
+        # Number the domains in order of first use: the global ufl_id would make
+        # the generated names depend on what else was created in the process
+        domain = ufl.domain.extract_unique_domain(mt.expr)
+        number = self._domain_numbers.setdefault(domain, len(self._domain_numbers))
+        return L.Symbol(format_mt_name(f"J{number}", mt), dtype=L.DataType.REAL)
 
     def domain_dof_access(self, dof, component, gdim, num_scalar_dofs, restriction):
         """Domain DOF access."""
